@@ -56,3 +56,14 @@ Theorem C20_never_early_partial : forall id latest start now1 f t,
   cron_next id (Z.max start (match latest with Some (l, _) => l | None => start end)) <= t.
 Proof. exact never_early_partial. Qed.
 Print Assumptions C20_never_early_partial.
+
+(* "... and ends when the workflow stops": the scheduling process parked in its error back-off (a failed lookup or Store of its
+   trigger) whose role is gone is back to asking for its role at its next step, having made no adapter call — for EVERY state
+   (the same fact as C11_backoff_ends_when_role_lost, for the scheduler's unit) *)
+From WF Require Import proofs.StoreOk.
+Theorem C20_scheduler_backoff_ends_when_stopped : forall c inst fid d s,
+  o_lease s && negb (o_dead s) = false ->
+  fst (proc_op c inst (ESched fid) (PBackoff d) s) = Ok PIdle /\
+  o_w (snd (proc_op c inst (ESched fid) (PBackoff d) s)) = release_role (o_w s) (ESched fid) inst.
+Proof. intros c inst fid d s H. destruct (backoff_cancelled_when_role_lost c inst (ESched fid) d s H) as (A & B & _). split; assumption. Qed.
+Print Assumptions C20_scheduler_backoff_ends_when_stopped.
